@@ -33,6 +33,7 @@ pub mod c31;
 pub mod c32;
 pub mod c33;
 pub mod c34;
+pub mod c35;
 pub mod c36;
 
 pub fn run(ctx: &Ctx, id: &str) -> bool {
@@ -71,6 +72,7 @@ pub fn run(ctx: &Ctx, id: &str) -> bool {
         "C32" => c32::run(ctx),
         "C33" => c33::run(ctx),
         "C34" => c34::run(ctx),
+        "C35" => c35::run(ctx),
         "C36" => c36::run(ctx),
         _ => return false,
     }
